@@ -2,7 +2,7 @@
 from mirlib import facts, flow, ir, symx
 from mirlib.pat import ANY, ADT, C, CLOS, F, IDX, K, OP, P, TUP, V, match
 from rules import deps, kernel, semantics, shared
-from rules.kernel import deep_strip, strip, is_call
+from rules.kernel import deep_strip, strip, is_call, effects_named, int_of
 
 EXPLANATION = """
 Decided: C04.P-filter (both public entry points return a chain in which every element passed a filter whose result is
@@ -146,6 +146,185 @@ def T_cube(ctx, lib):
     ctx.floor(rule, "literal closures", n, 2)
 
 
+def T_choice(ctx, lib):
+    rule = "C04.T-choice"
+    ctx.rule(rule, "two_val_model_counts_logic branches only on a statement that is undecided both in the current interpretation and in will_be: the filter over "
+                   "interpr.iter().enumerate() keeps (idx, val) iff class(val) = U and class(will_be[idx]) = U, with will_be indexed by the item's own idx; when no such "
+                   "statement is left, the concluded interpretation takes will_be[idx] for undecided and the value itself for decided positions (same idx)")
+    try:
+        b = lib.one("adf::Adf::two_val_model_counts_logic")
+    except LookupError as e:
+        ctx.lost(rule, "two_val_model_counts_logic", str(e))
+        return
+    roles, _ = flow.closure_roles(b)
+    n_f = n_m = 0
+    for c in lib.closures_of(b):
+        r = roles.get(c.path)
+        if r is None or r.adaptor not in ("filter", "map"):
+            continue
+        src, steps = r.receiver_chain()
+        if not (src == ("param", 2) and [s_[0] for s_ in steps] == ["iter", "enumerate"]):
+            continue
+        caps = flow.resolve_captures(lib, c) or []
+        eng = ctx.engine([lib])
+        tab = {}
+        for cur in shared.CLASSES:
+            for wb in shared.CLASSES:
+                st = symx.State()
+                capvals = [("sym", "will_be") if flow.is_oparam(ce, 3, "Adf::two_val_model_counts_logic") else ("sym", "other%d" % k) for k, ce in enumerate(caps)]
+                IDX = ("sym", "idx")
+                WB = ("sym", "wb_at_idx")
+                used_other_index = []
+
+                def hook(e_, s_, base, idx, wb=wb):
+                    if symx.contains(base, lambda n_: n_ == ("sym", "will_be")):
+                        if deep_strip(idx) == IDX:
+                            return shared.term(wb) if wb != "U" else shared.term("U")
+                        used_other_index.append(symx.show(idx)[:60])
+                    return None
+                eng.index_hook = hook
+                env = eng.closure_env(st, c, capvals)
+                val = shared.term(cur)
+                item = ("tuple", (IDX, shared.ref_to(st, val)))
+                arg = shared.ref_to(st, item) if r.adaptor == "filter" else item
+                paths = eng.summarise(c, [env, arg], st)
+                eng.index_hook = None
+                outs = set()
+                for p_ in paths:
+                    if p_.end != "return":
+                        outs.add(("end", p_.end))
+                    elif r.adaptor == "filter":
+                        outs.add(symx.show(p_.ret))
+                    else:
+                        outs.add(shared.cls_of_term(deep_strip(p_.ret)) or symx.show(p_.ret)[:60])
+                if used_other_index:
+                    outs.add(("will_be indexed by", used_other_index[0]))
+                tab[(cur, wb)] = outs
+        if r.adaptor == "filter":
+            n_f += 1
+            for (cur, wb), outs in sorted(tab.items()):
+                want = {symx.show(symx.vbool(cur == "U" and wb == "U"))}
+                ctx.ob(rule, "candidate[val=%s,will_be=%s]" % (cur, wb), outs == want, where=c.where(), expected=sorted(want), found=sorted(map(str, outs)))
+        else:
+            n_m += 1
+            for (cur, wb), outs in sorted(tab.items()):
+                want = {wb if cur == "U" else cur}
+                ctx.ob(rule, "concluded[val=%s,will_be=%s]" % (cur, wb), outs == want, where=c.where(), expected=sorted(want), found=sorted(map(str, outs)))
+    ctx.floor(rule, "candidate filters", n_f, 1)
+    ctx.floor(rule, "conclusion maps", n_m, 1)
+
+
+def F_branch(ctx, lib):
+    rule = "C04.F-branch"
+    ctx.rule(rule, "two_val_model_counts_logic, per cube of Bdd::interpretations(ac, goal, Var(idx), [], []): the recursion is entered only if BOTH literal passes succeeded "
+                   "(negative and positive try_for_each combined by Result::and, result Ok) and check_consistency(update_interpretation_fixpoint(new_int), will_be) holds; "
+                   "before that new_int[idx] is set to TOP iff goal (BOT otherwise) for the same idx and the same goal that were handed to interpretations; the recursion "
+                   "receives that updated interpretation and the unchanged will_be")
+    try:
+        b = lib.one("adf::Adf::two_val_model_counts_logic")
+    except LookupError as e:
+        ctx.lost(rule, "two_val_model_counts_logic", str(e))
+        return
+    roles, _ = flow.closure_roles(b)
+    cubes = None
+    for c in lib.closures_of(b):
+        r = roles.get(c.path)
+        if r is not None and r.adaptor == "for_each":
+            src, steps = r.receiver_chain()
+            if src[0] == "call" and flow.fname(src[1]) == "Bdd::interpretations":
+                cubes = (c, r, src)
+    if cubes is None:
+        ctx.lost(rule, "cube-closure", "for_each over Bdd::interpretations(..).iter()")
+        return
+    c, r, src = cubes
+    caps = flow.resolve_captures(lib, c) or []
+    # parent side: interpretations(self.bdd, ac, goal, Var(idx), [], [])
+    iargs = src[3]
+    goal_e, gvar_e = iargs[2], iargs[3]
+    role = {}
+    for k, ce in enumerate(caps):
+        if flow.is_oparam(ce, 2, "Adf::two_val_model_counts_logic"):
+            role[k] = "interpr"
+        elif flow.is_oparam(ce, 3, "Adf::two_val_model_counts_logic"):
+            role[k] = "will_be"
+        elif flow.is_oparam(ce, 1, "Adf::two_val_model_counts_logic"):
+            role[k] = "self"
+        elif flow.strip_owner(ce) == flow.strip_owner(goal_e) if hasattr(flow, "strip_owner") else flow.show(ce) == flow.show(goal_e):
+            role[k] = "goal"
+    # the goal capture: the capture whose expression is the goal argument; the idx capture: contained in the goal_var argument
+    for k, ce in enumerate(caps):
+        if k in role:
+            continue
+        if flow.show(ce).replace("two_val_model_counts_logic.", "") == flow.show(goal_e):
+            role[k] = "goal"
+        elif flow.find(gvar_e, lambda n_: flow.show(n_) == flow.show(ce).replace("two_val_model_counts_logic.", "")):
+            role[k] = "idx"
+    have = set(role.values())
+    ctx.ob(rule, "captures", {"interpr", "will_be", "self", "goal", "idx"} <= have, where=c.where(), expected="the cube closure captures interpr, will_be, self, the goal flag and the chosen index - the same values that are handed to interpretations",
+           found="%s; interpretations(.., %s, %s, ..)" % (sorted(have), flow.show(goal_e)[:80], flow.show(gvar_e)[:80]))
+    if not {"interpr", "will_be", "self", "goal", "idx"} <= have:
+        return
+    inv = {v: k for k, v in role.items()}
+    eng = ctx.engine([lib], no_inline={"adf_bdd::adf::Adf::two_val_model_counts_logic", "adf_bdd::adf::Adf::update_interpretation_fixpoint", "adf_bdd::adf::Adf::check_consistency"})
+    n_rec = 0
+    for goal in (True, False):
+        st = symx.State()
+        capvals = []
+        for k in range(len(caps)):
+            rl = role.get(k)
+            capvals.append(symx.vbool(goal) if rl == "goal" else ("sym", rl or ("cap%d" % k)))
+        env = eng.closure_env(st, c, capvals)
+        item = ("tuple", (("sym", "neg"), ("sym", "pos")))
+        for p in eng.summarise(c, [env, shared.ref_to(st, item)], st):
+            rec = [e for e in effects_named(p, "Adf::two_val_model_counts_logic")]
+            if not rec:
+                continue
+            n_rec += 1
+            key = "goal=%s" % goal
+            # (1) both passes succeeded
+            both = False
+            for e, v in p.cond:
+                e = deep_strip(e)
+                if e[0] == "app" and e[1] == "discr" and int_of(v) == 0:
+                    x = deep_strip(e[2][0])
+                    tfes = symx.find_all(x, lambda n_: n_[0] == "app" and flow.last(str(n_[1])) == "try_for_each")
+                    comb = symx.find_all(x, lambda n_: n_[0] == "app" and str(n_[1]).startswith(("std::result::Result", "core::result::Result", "Result::")) or (n_[0] == "app" and flow.fname(str(n_[1])).startswith("Result::")))
+                    names = set(flow.last(str(n_[1])) for n_ in comb)
+                    over = set()
+                    for t_ in tfes:
+                        if symx.contains(t_[2][0], lambda n_: n_ == ("sym", "neg")):
+                            over.add("neg")
+                        if symx.contains(t_[2][0], lambda n_: n_ == ("sym", "pos")):
+                            over.add("pos")
+                    if over == {"neg", "pos"} and names <= {"and", "and_then"} and names:
+                        both = True
+            ctx.ob(rule, key + ".both-passes-ok", both, where=c.where(), expected="recursion only under negative.try_for_each(..).and(positive.try_for_each(..)).is_ok()", found=p.describe()[:260])
+            # (2) new_int[idx] = TOP iff goal
+            ims = [e for e in p.effects if e.get("kind") == "index_mut" and e["cell"] in p.state.written]
+            okv = False
+            for e in ims:
+                idx = deep_strip(e["args"][1])
+                val = shared.cls_of_term(deep_strip(p.state.cells[e["cell"]]))
+                base = deep_strip(e["args"][0])
+                if symx.contains(idx, lambda n_: n_ == ("sym", "idx")) and symx.contains(base, lambda n_: n_ == ("sym", "interpr")) and val == ("T" if goal else "B"):
+                    okv = True
+            ctx.ob(rule, key + ".chosen-statement-gets-goal-value", okv, where=c.where(), expected="new_int[idx] = %s" % ("TOP" if goal else "BOT"),
+                   found=[(symx.show(deep_strip(e["args"][1]))[:40], symx.show(deep_strip(p.state.cells[e["cell"]]))[:40]) for e in ims])
+            # (3) consistency test and recursion arguments
+            upd = [e for e in effects_named(p, "Adf::update_interpretation_fixpoint")]
+            cons = [(deep_strip(e), v) for e, v in p.cond if is_call(deep_strip(e), "Adf::check_consistency")]
+            okc = len(upd) == 1 and len(cons) == 1 and int_of(cons[0][1]) == 1
+            if okc:
+                u = deep_strip(upd[0]["result"])
+                ca = [deep_strip(a) for a in cons[0][0][2]]
+                ra = [deep_strip(a) for a in rec[0]["args"]]
+                okc = (len(ca) >= 3 and ca[1] == u and ca[2] == ("sym", "will_be") and len(ra) >= 3 and ra[1] == u and ra[2] == ("sym", "will_be")
+                       and symx.contains(deep_strip(upd[0]["args"][1]), lambda n_: n_ == ("sym", "interpr")))
+            ctx.ob(rule, key + ".consistent-update-recursed", okc, where=c.where(), expected="upd = update_interpretation_fixpoint(&new_int); check_consistency(&upd, will_be); logic(&upd, will_be, ..)",
+                   found=p.describe()[:260])
+    ctx.floor(rule, "recursing cube paths", n_rec, 2)
+
+
 def check(ctx):
     for cfg in configs(ctx.tier):
         ctx.cfg = cfg.name
@@ -168,5 +347,7 @@ def check(ctx):
         k, seen = semantics.F_restrict_native(ctx, lib, rule, only={"Adf::stability_check", "Adf::apply_interpretation", "Adf::grounded_internal", "Adf::two_val_model_counts_logic"})
         ctx.floor(rule, "native restriction sites", k, 4)
         T_cube(ctx, lib)
+        T_choice(ctx, lib)
+        F_branch(ctx, lib)
         deps.cubes(ctx, lib)
         deps.semantics_base(ctx, lib)
